@@ -412,16 +412,21 @@ def square_multiply(cx, rule, suffix):
     vin = 'var:%s@in' % acc
     sq = sq_t % ((vin,) * sq_t.count('%s'))
     mul = mul_t % (sq, base)
-    tr = I.transfer(fn, F, 'Range::Range{0, 64}', [acc, 'w'])
-    inner = I.find_loop(fn, P, cn, 'Range::Range{0, 64}', defines=[acc, 'w'])
-    outer = I.find_loop(fn, P, cn, 'rev(Range::Range{0, 4})')
+    LIMB = '$e[each(rev(Range::Range{0, 4}))]'
+    inner = I.find_loop(fn, P, cn, 'Range::Range{0, 64}', defines=[acc])
+    outer = I.find_loop(fn, P, cn, 'rev(Range::Range{0, 4})') or I.find_loop(fn, P, cn, 'rev(iter($e))')
+    has_w = any(l.get('name') == 'w' for l in fn.locals)
+    tr = I.transfer(fn, F, 'Range::Range{0, 64}', [acc, 'w'] if has_w else [acc])
     if tr is None or inner is None or outer is None:
         cx.violate(rule, inst + '/loops', 'the limb loop `for i in (0..4).rev()` with the bit loop `for _ in 0..64` inside was not found', fn.loc())
         return
     got = tr[acc] or ''
     alts = sorted(x.strip() for x in got[4:-1].split(' | ')) if got.startswith('phi(') and got.endswith(')') else [got]
-    cx.add(rule, inst + '/step', alts == sorted([sq, mul]) and tr['w'] == 'Shl(var:w@in, 1)',
-           'one bit step: %s = %s^2, times the base when the top bit of w is set; w <<= 1 (got %s; w = %s)' % (acc, acc, FR_short(got), tr['w']), fn.loc(), {'got': tr})
+    # the current bit is either the top bit of a shifting copy of the limb, or bit 63, 62, .. 0 of the limb itself
+    shifting = has_w and tr.get('w') == 'Shl(var:w@in, 1)'
+    bit_tests = ['BitAnd(var:w@in, 0x8000000000000000)'] if shifting else ['BitAnd(Shr(%s, each(rev(Range::Range{0, 64}))), 1)' % LIMB]
+    cx.add(rule, inst + '/step', alts == sorted([sq, mul]) and (shifting or not has_w),
+           'one bit step: %s = %s^2, times the base when the current bit is set; the bits are taken from the top down (got %s; w = %s)' % (acc, acc, FR_short(got), tr.get('w')), fn.loc(), {'got': tr})
     ih, icomp, _ = inner
     oh, ocomp, olatches = outer
     # the multiplication is selected by the top bit of w
@@ -430,10 +435,10 @@ def square_multiply(cx, rule, suffix):
                   and cn.c(norm(P.local(fn.blocks[b]['term']['dest']['l'], fn.blocks[b]['term']['target'], 0))) == mul] if True else []
     sel = []
     for b, p, te, fe in G.bool_switches(fn, P):
-        if b in icomp and p.kind == 'eq' and sorted(cn.c(a) for a in p.args) == sorted(['BitAnd(var:w@in, 0x8000000000000000)', '0']):
+        if b in icomp and p.kind == 'eq' and sorted(cn.c(a) for a in p.args) in [sorted([bt_, '0']) for bt_ in bit_tests]:
             sel.append((b, te if p.neg else fe))
     ok_sel = len(sel) == 1 and len(mul_blocks) == 1 and mul_blocks[0] not in fn.reachable_ds(ih, removed_edges=sel[0][1])
-    cx.add(rule, inst + '/bit', ok_sel, 'the multiplication by the base is done exactly when w & 2^63 != 0 (bit tests %s, multiplication blocks %s)' % ([s[0] for s in sel], mul_blocks), fn.loc())
+    cx.add(rule, inst + '/bit', ok_sel, 'the multiplication by the base is done exactly when the current bit of the limb is set (bit tests %s, multiplication blocks %s)' % ([s[0] for s in sel], mul_blocks), fn.loc())
     # nothing is skipped: the bit loop leaves only when its range is exhausted, every pass of the limb loop runs it
     def exits(comp):
         return sorted((u, v) for u in comp for v in fn.succ(u) if v not in comp and not fn.blocks[v].get('cleanup') and fn.blocks[v]['term']['k'] != 'unreachable')
@@ -441,7 +446,7 @@ def square_multiply(cx, rule, suffix):
     def is_iter_exit(u, rng):
         t = fn.blocks[u]['term']
         return t['k'] == 'switch' and rng in cn.c(norm(P.operand(t['op'], u, len(fn.blocks[u]['stmts']))))
-    ok_exit = len(iex) == 1 and is_iter_exit(iex[0][0], 'next(into_iter(Range::Range{0, 64}))') and len(oex) == 1 and is_iter_exit(oex[0][0], 'next(into_iter(rev(Range::Range{0, 4})))')
+    ok_exit = len(iex) == 1 and (is_iter_exit(iex[0][0], 'next(into_iter(Range::Range{0, 64}))') or is_iter_exit(iex[0][0], 'next(into_iter(rev(Range::Range{0, 64})))')) and len(oex) == 1 and (is_iter_exit(oex[0][0], 'next(into_iter(rev(Range::Range{0, 4})))') or is_iter_exit(oex[0][0], 'next(into_iter(rev(iter($e))))'))
     cx.add(rule, inst + '/no-early-exit', ok_exit, 'both loops are left only when their ranges are exhausted (bit-loop exits %s, limb-loop exits %s)' % (iex, oex), fn.loc())
     r = fn.reachable_ds(oh, removed_blocks={ih})
     skipping = [l for l in olatches if l in r and l != oh]
@@ -450,9 +455,12 @@ def square_multiply(cx, rule, suffix):
     cx.add(rule, inst + '/every-limb', icomp < ocomp and not within, 'every pass of the limb loop runs the 64 bit steps (no path from the limb-loop header back to it avoids the bit loop)', fn.loc(),
            {'skipping_latches': within})
     # w is the limb i of the exponent, i = 3, 2, 1, 0
-    wl = [cn.c(norm(P.rvalue(st['rv'], b, i, 0))) for b, i, st in fn.stmts() if st['k'] == 'assign' and not st['lhs']['p']
-          and fn.locals[st['lhs']['l']].get('name') == 'w' and b in ocomp and b not in icomp]
-    cx.add(rule, inst + '/limb', wl == ['$e[each(rev(Range::Range{0, 4}))]'], 'w is loaded with limb i of the exponent, i = 3, 2, 1, 0 (got %s)' % wl, fn.loc())
+    if shifting:
+        wl = [cn.c(norm(P.rvalue(st['rv'], b, i, 0))) for b, i, st in fn.stmts() if st['k'] == 'assign' and not st['lhs']['p']
+              and fn.locals[st['lhs']['l']].get('name') == 'w' and b in ocomp and b not in icomp]
+        cx.add(rule, inst + '/limb', wl == [LIMB], 'w is loaded with limb i of the exponent, i = 3, 2, 1, 0 (got %s)' % wl, fn.loc())
+    else:
+        cx.hold(rule, inst + '/limb', 'the bit test reads limb i of the exponent, i = 3, 2, 1, 0, directly', fn.loc())
     # start value and result
     idx = {l.get('name'): i for i, l in enumerate(fn.locals) if l.get('name')}
     P0 = Prov(fn, F)
